@@ -186,6 +186,15 @@ impl StateHook for QueryHook {
                         if a.is_none() || a != r {
                             sink.vl("C16", format!("C16/{kind}/answer-differs-from-stored-order"), format!("answer {} stored {}", lossy(&ans), lossy(raw)), last.clone());
                         }
+                        // a completely filled / cancelled / expired / rejected order is not on the book
+                        let closed = if side == "ask" {
+                            decode_ask(id, &ans).map(|x| x.size == 0).unwrap_or(false)
+                        } else {
+                            decode_bid(id, &ans).map(|x| x.rem_base() == Some(0)).unwrap_or(false)
+                        };
+                        if closed {
+                            sink.vl("C16", format!("C16/{kind}/returns-an-order-with-nothing-remaining"), format!("answer {}", lossy(&ans)), last.clone());
+                        }
                         // what the query reports is what a cancel returns
                         let (owner, expected): (Option<String>, Option<Net>) = if side == "ask" {
                             match decode_ask(id, &ans) {
